@@ -2711,6 +2711,18 @@ Proof.
 Qed.
 
 
+(** reader == writer through the code, with by-name references (recursive types included) *)
+Theorem rdec_identity_zoneS : forall n e s a, typedn n e s a -> wf_ident n e s ->
+  env_scoped e = true -> scoped e s = true ->
+  forall k f x, (n <= k)%nat -> (n <= f)%nat -> agreen k e e s s = true ->
+  exists v, py_of o e s a = Some v /\ rdec f e e o s (Some s) (wire a ++ x) = ROk (v, x).
+Proof.
+  intros n e s a Ht Hwf He Hs k f x Hk Hf Ha. destruct (resolve_identity n e s a Ht Hwf) as (v & H1 & H2).
+  exists v. split; [exact H1|].
+  rewrite (rdec_resolve_zoneS n e s a Ht e s k f x Hk Hf He He Hs Hs Ha), H2. reflexivity.
+Qed.
+
+
 End Opts.
 
 From Coq Require Import String.
